@@ -9,14 +9,14 @@ structure Ns where
   uri : String
   abbreviation : String
   rustModName : String
-deriving Repr, DecidableEq, Inhabited, BEq
+deriving Repr, DecidableEq, Inhabited
 
 /-- `RustFieldType` -/
 inductive FType where
   | string | i8 | i16 | i32 | i64 | u8 | u16 | f32 | f64 | bool
   | other (name : String) (module : Option String)
   | u64 | u32
-deriving Repr, DecidableEq, Inhabited, BEq
+deriving Repr, DecidableEq, Inhabited
 
 /-- `impl Display for RustFieldType` -/
 def FType.render : FType → String
@@ -44,7 +44,7 @@ structure Field where
   isAttribute : Bool
   isChoice : Bool
   isAny : Bool
-deriving Repr, DecidableEq, Inhabited, BEq
+deriving Repr, DecidableEq, Inhabited
 
 /-- the part of `structures::restrictions::Restrictions` that reaches the output -/
 structure Restr where
@@ -56,14 +56,14 @@ structure Restr where
   minLength : Option String := none
   maxLength : Option String := none
   enumeration : Option (List String) := none
-deriving Repr, DecidableEq, Inhabited, BEq
+deriving Repr, DecidableEq, Inhabited
 
 structure CProps where
   xmlName : String
   fields : List Field
   tns : Option Ns
   comment : Option String
-deriving Repr, DecidableEq, Inhabited, BEq
+deriving Repr, DecidableEq, Inhabited
 
 structure SProps where
   xmlName : String
@@ -71,25 +71,25 @@ structure SProps where
   tns : Option Ns
   restrictions : Option Restr
   comment : Option String
-deriving Repr, DecidableEq, Inhabited, BEq
+deriving Repr, DecidableEq, Inhabited
 
 inductive EType where
   | rustType (t : FType)
   | complex (p : CProps)
   | unsupported
-deriving Repr, DecidableEq, Inhabited, BEq
+deriving Repr, DecidableEq, Inhabited
 
 structure EProps where
   xmlName : String
   etype : EType
-deriving Repr, DecidableEq, Inhabited, BEq
+deriving Repr, DecidableEq, Inhabited
 
 inductive RType where
   | ignore
   | complex (p : CProps)
   | simple (p : SProps)
   | element (p : EProps)
-deriving Repr, DecidableEq, Inhabited, BEq
+deriving Repr, DecidableEq, Inhabited
 
 def RType.xmlName : RType → Option String
   | .ignore => none
@@ -100,7 +100,7 @@ def RType.xmlName : RType → Option String
 structure RNode where
   rtype : RType
   inNs : Option Ns
-deriving Repr, DecidableEq, Inhabited, BEq
+deriving Repr, DecidableEq, Inhabited
 
 /-! key-sorted association lists standing for `BTreeMap<String, V>` -/
 
